@@ -21,7 +21,8 @@
     serialised unit ([ser]): name maps cut to their 100 largest counts, time
     sum replaced by the whole-microsecond average times the count. *)
 From Coq Require Import ZArith List Bool.
-From AGH Require Import Model.Stats Proofs.Stats Proofs.StatsExt Proofs.StatsTops Proofs.StatsCut.
+From AGH Require Import Model.Stats Model.StatsShutdown Proofs.Stats Proofs.StatsExt Proofs.StatsTops Proofs.StatsCut
+  Proofs.StatsShutdown.
 From AGH Require Base.Conc Proofs.StatsConc.
 Import ListNotations.
 Local Open Scope Z_scope.
@@ -355,16 +356,21 @@ Theorem C09_mutual_exclusion_table :
 Proof. exact (conj stats_sites_as_listed (conj stats_reqs_present reset_is_a_root)). Qed.
 Print Assumptions C09_mutual_exclusion_table.
 
-(** ... every access to the mutable state is inside a confMu section (Close
-    apart), in write mode for every operation that changes the state. *)
+(** ... every access to the mutable state is inside a confMu section (Close's
+    as well since bf01866: no exception), in write mode for every operation
+    that changes the state and for Close. *)
 Theorem C09_mutual_exclusion_sections :
-  forallb (fun r => negb (existsb (Coq.Strings.String.eqb (r_field r)) mutable_fields) || is_close r ||
+  forallb (fun r => negb (existsb (Coq.Strings.String.eqb (r_field r)) mutable_fields) ||
                     holds (r_held r) confMu) reqs = true /\
   forallb (fun r => negb (r_write r) || existsb (Coq.Strings.String.eqb (r_fn r)) writer_fns) reqs = true /\
   forallb (fun r => negb (existsb (Coq.Strings.String.eqb (r_fn r)) writer_fns) ||
                     negb (existsb (Coq.Strings.String.eqb (r_field r)) mutable_fields) ||
-                    holds_w (r_held r) confMu) reqs = true.
-Proof. exact (conj state_accesses_inside_confMu (conj writers_are_listed writers_hold_confMu_W)). Qed.
+                    holds_w (r_held r) confMu) reqs = true /\
+  existsb is_close reqs = true /\
+  forallb (fun r => negb (is_close r) || holds_w (r_held r) confMu) reqs = true.
+Proof.
+  exact (conj state_accesses_inside_confMu (conj writers_are_listed (conj writers_hold_confMu_W close_holds_confMu_W))).
+Qed.
 Print Assumptions C09_mutual_exclusion_sections.
 
 (** Lifted by the generic theorems of the lock machine: the operations as
@@ -416,3 +422,128 @@ Theorem C09_reset_atomic :
   one_write_section p_put_config = true /\ one_write_section p_set_limit = true.
 Proof. exact reset_is_one_section. Qed.
 Print Assumptions C09_reset_atomic.
+
+(** * Clean shutdown concurrent with the hourly flush and with updates *)
+
+(** The bbolt write transaction on the statistics database is a lock ([dbw]).
+    On the table of acquisition sites regenerated from the current source
+    (Gen/LockTableAcq.v, projected onto confMu / currMu / the transaction) every
+    site is a listed one with exactly the listed locks held, every listed site
+    exists, the sites pass the gate-lock criterion although no single ranking
+    orders them (flush: currMu then the transaction; readers and Close: the
+    transaction then currMu), and the operations as event lists take their
+    locks at those sites. *)
+Theorem C09_mutual_exclusion_acquisitions :
+  forallb acq_listed stats_sites = true /\
+  forallb (fun r => existsb (amatches r) stats_sites) acq_reqs = true /\
+  Proofs.LockTableGate.gated_with stats_rank0 stats_rkd stats_sites = true /\
+  forallb (Proofs.LockTableGate.site_ascending stats_rank0) stats_sites = false /\
+  forallb (Proofs.LockTableGate.conforms_sites stats_sites []) stats_ops = true.
+Proof.
+  exact (conj stats_acquisitions_as_listed (conj stats_acq_reqs_present (conj stats_sites_gated
+          (conj stats_sites_not_ranked stats_ops_take_locks_at_sites)))).
+Qed.
+Print Assumptions C09_mutual_exclusion_acquisitions.
+
+(** Any number of the operations (Update, flush, readers, configuration
+    handlers, clear, Close), any interleaving: never deadlocked. *)
+Theorem C09_no_deadlock : forall progs,
+  Forall (fun p => In p stats_ops) progs ->
+  forall s, reachable (init progs) s -> ~ deadlocked s.
+Proof. exact stats_ops_no_deadlock. Qed.
+Print Assumptions C09_no_deadlock.
+
+(** Lock level: Close follows the table of the current source and is one
+    confMu write section like the flush and Update; for any number of the
+    operations started together: no race, no two inside their sections unless
+    both read (so Close and the flush run one after the other, in either
+    order, updates before, between or after), no deadlock. *)
+Theorem C09_shutdown_during_flush_serialises :
+  conforms_tight stats_table [] p_close = true /\
+  Proofs.LockTableGate.conforms_sites stats_sites [] p_close = true /\
+  one_write_section p_close = true /\ one_write_section (tl p_flush) = true /\
+  one_write_section p_update = true /\
+  forall progs, Forall (fun p => In p stats_ops) progs ->
+    (forall s, reachable (init progs) s -> ~ race s) /\
+    (forall s, reachable (init (map (sections None) progs)) s -> ~ race s) /\
+    (forall s, reachable (init progs) s -> ~ deadlocked s).
+Proof. exact shutdown_during_flush. Qed.
+Print Assumptions C09_shutdown_during_flush_serialises.
+
+(** Data level: whichever way the serialised bodies were ordered, updates and
+    flushes; Close; updates and flushes (on the closed context); New is the
+    sequential history "what ran before Close, then ORestart". *)
+Theorem C09_shutdown_equals_sequential_history : forall s pre post id,
+  dbnil s = false -> forallb uf pre = true -> forallb uf post = true ->
+  xrun s (map XOp pre ++ XClose :: map XOp post ++ [XNew id]) = Stats.run s (pre ++ [ORestart id]).
+Proof. exact shutdown_serialises. Qed.
+Print Assumptions C09_shutdown_equals_sequential_history.
+
+Theorem C09_shutdown_flush_then_close : forall s us1 id1 us2 us3 id2,
+  dbnil s = false ->
+  xrun s (map XOp (upds us1 ++ [OFlush id1] ++ upds us2) ++ XClose :: map XOp (upds us3) ++ [XNew id2]) =
+  Stats.run s (upds us1 ++ [OFlush id1] ++ upds us2 ++ [ORestart id2]).
+Proof. exact flush_then_close. Qed.
+Print Assumptions C09_shutdown_flush_then_close.
+
+Theorem C09_shutdown_close_then_flush : forall s us1 us2 id1 us3 id2,
+  dbnil s = false ->
+  xrun s (map XOp (upds us1) ++ XClose :: map XOp (upds us2 ++ [OFlush id1] ++ upds us3) ++ [XNew id2]) =
+  Stats.run s (upds us1 ++ [ORestart id2]).
+Proof. exact close_then_flush. Qed.
+Print Assumptions C09_shutdown_close_then_flush.
+
+(** Counts survive: after New the conservation bounds hold with respect to
+    exactly the updates counted before Close. *)
+Theorem C09_shutdown_counts_survive : forall id0 ms en h pre post id k,
+  init_ok id0 ms -> forallb uf pre = true -> forallb uf post = true ->
+  wf_hist id0 (h ++ pre ++ [ORestart id]) ->
+  let s := xrun (Stats.init id0 ms en) (map XOp h ++ map XOp pre ++ XClose :: map XOp post ++ [XNew id]) in
+  let g := grun (ginit id0 ms en) (h ++ pre ++ [ORestart id]) in
+  rep k s <= wsum s (fun i => g_ev g i k) /\
+  wsum s (fun i => if i <=? g_low g then 0 else g_ev g i k) <= rep k s /\
+  (g_raised g = false -> rep k s = wsum s (fun i => g_ev g i k)).
+Proof. exact shutdown_conservation. Qed.
+Print Assumptions C09_shutdown_counts_survive.
+
+(** Who won the race does not show afterwards. *)
+Theorem C09_shutdown_order_irrelevant : forall id0 ms en h id1 id2 k,
+  init_ok id0 ms ->
+  wf_hist id0 (h ++ [OFlush id1; ORestart id2]) -> wf_hist id0 (h ++ [ORestart id2]) ->
+  g_raised (grun (ginit id0 ms en) h) = false ->
+  let s0 := Stats.init id0 ms en in
+  rep k (xrun s0 (map XOp h ++ [XOp (OFlush id1); XClose; XNew id2])) =
+  rep k (xrun s0 (map XOp h ++ [XClose; XOp (OFlush id1); XNew id2])).
+Proof. exact shutdown_order_irrelevant. Qed.
+Print Assumptions C09_shutdown_order_irrelevant.
+
+Theorem C09_shutdown_example :
+  let s0 := Stats.init 490000 (24 * ms_hour) true in
+  let late := [OUpdate (ex_e 1); OUpdate (ex_e 2)] in
+  let a := xrun s0 (map XOp ex_all5 ++ [XOp (OFlush 490001)] ++ map XOp late ++ [XClose; XNew 490001]) in
+  let b := xrun s0 (map XOp ex_all5 ++ [XClose; XOp (OFlush 490001)] ++ map XOp late ++ [XNew 490001]) in
+  init_ok 490000 (24 * ms_hour) /\
+  wf_hist 490000 (ex_all5 ++ [OFlush 490001] ++ late ++ [ORestart 490001]) /\
+  wf_hist 490000 (ex_all5 ++ [ORestart 490001]) /\
+  rep CTotal a = 7 /\ rep CTotal b = 5 /\ cur_id a = 490001 /\ cur_id b = 490001 /\
+  dbnil a = false /\ dbnil b = false /\
+  rep CTotal (xrun s0 (map XOp ex_all5 ++ [XOp (OFlush 490001); XClose; XNew 490001])) = 5.
+Proof. exact shutdown_example. Qed.
+Print Assumptions C09_shutdown_example.
+
+(** Close as it was before bf01866 (write transaction, then currMu, no
+    confMu): its acquisition sites do not pass the criterion, and the lock
+    machine reaches a deadlocked state with the flush: the flush holds confMu
+    and currMu and waits for the transaction, Close holds the transaction and
+    waits for currMu; an Update arriving then waits for confMu for good. *)
+Theorem C09_shutdown_before_fix_refuted :
+  Proofs.LockTableGate.conforms_sites sites_before_fix [] p_close_before_fix = true /\
+  Proofs.LockTableGate.conforms_sites sites_before_fix [] p_flush = true /\
+  Proofs.LockTableGate.gated_with stats_rank0 stats_rkd sites_before_fix = false /\
+  (exists s, reachable (init [p_flush; p_close_before_fix]) s /\ deadlocked s) /\
+  (exists s, reachable (init [p_flush; p_close_before_fix; p_update]) s /\ deadlocked s).
+Proof.
+  exact (conj (proj1 close_before_fix_ungated) (conj (proj1 (proj2 close_before_fix_ungated))
+          (conj (proj2 (proj2 close_before_fix_ungated)) (conj close_before_fix_deadlocks close_before_fix_blocks_updates)))).
+Qed.
+Print Assumptions C09_shutdown_before_fix_refuted.
